@@ -448,6 +448,7 @@ type fragOpts struct {
 	extraMoof  int  // boxes added to moof before EncryptFragment (after traf): free / pssh-less unknown
 	extraTraf  int  // boxes added to traf before EncryptFragment
 	moofBefore bool // put an extra box BEFORE the traf
+	optTrun    bool // Fragment.EncOptimize = OptimizeTrun (tfhd/trun are rewritten at encode time)
 }
 
 type fragResult struct {
@@ -480,6 +481,9 @@ var kidHex = "11112222333344445555666677778888"
 func buildFragment(trackID uint32, samples [][]byte, o fragOpts, r *hx.Rng) *mp4.Fragment {
 	frag, err := mp4.CreateFragment(7, trackID)
 	must(err)
+	if o.optTrun {
+		frag.EncOptimize = mp4.OptimizeTrun
+	}
 	dt := uint64(90000)
 	for i, s := range samples {
 		fl := uint32(0x01010000)
@@ -827,6 +831,22 @@ func corr(e *env, seed uint64, n int, big int) {
 				samples = append(samples, frame(genVideoSampleCenc(r, codec, b)))
 			}
 		}
+		if codec != 'u' && scheme == "cenc" && i%20 == 5 {
+			// 38..45 sub-sample entries in one sample: the saiz size byte wraps at 256
+			kk := r.Range(38, 45)
+			var nal [][]byte
+			for j := 0; j < kk; j++ {
+				bb := r.Bytes(r.Pick(108, 112, 120), nil)
+				if codec == 'a' {
+					bb[0] = avcHeader(r, true)
+				} else {
+					bb[0] = hevcHeader(r, true)
+					bb[1] = 1
+				}
+				nal = append(nal, bb)
+			}
+			samples[0] = frame(nal)
+		}
 		iv := genIV(r, r.Pick(8, 16))
 		k := key()
 		o := fragOpts{extraMoof: r.Pick(0, 0, 1, 2), extraTraf: r.Pick(0, 0, 1, 2), moofBefore: r.Bool()}
@@ -1025,9 +1045,26 @@ func search(e *env, seed uint64, n int, big int) {
 				naluLists = append(naluLists, nal)
 			}
 		}
+		if codec != 'u' && scheme == "cenc" && i%25 == 7 {
+			// a sample with many protected NAL units: 38..45 sub-sample entries
+			k := r.Range(38, 45)
+			var nal [][]byte
+			for j := 0; j < k; j++ {
+				bb := r.Bytes(r.Pick(108, 112, 120, 130), nil)
+				if codec == 'a' {
+					bb[0] = avcHeader(r, true)
+				} else {
+					bb[0] = hevcHeader(r, true)
+					bb[1] = 1
+				}
+				nal = append(nal, bb)
+			}
+			samples[0] = frame(nal)
+			naluLists[0] = nal
+		}
 		ivIn := genIV(r, r.Pick(8, 16))
 		key := r.Bytes(16, nil)
-		o := fragOpts{extraMoof: r.Pick(0, 0, 1, 2), extraTraf: r.Pick(0, 0, 1, 2), moofBefore: r.Bool()}
+		o := fragOpts{extraMoof: r.Pick(0, 0, 1, 2), extraTraf: r.Pick(0, 0, 1, 2), moofBefore: r.Bool(), optTrun: i%10 == 3}
 		fr := e.runFragment(codec, scheme, key, ivIn, samples, o, r)
 		evals++
 		wit := fmt.Sprintf("codec=%c scheme=%s key=%s iv=%s opts=%+v samples=%s", codec, scheme, hx.Hex(key), hx.Hex(ivIn), o, samplesField(samples))
@@ -1045,6 +1082,7 @@ func search(e *env, seed uint64, n int, big int) {
 func checkFragment(e *env, fr fragResult, codec byte, scheme string, key, ivIn []byte, samples [][]byte, naluLists [][][]byte, wit string) {
 	// encode init + fragment, decode again: the observation point is the encoded file
 	seg := mp4.NewMediaSegmentWithoutStyp()
+	seg.EncOptimize = fr.frag.EncOptimize // MediaSegment.Encode copies its own mode into every fragment
 	seg.AddFragment(fr.frag)
 	var buf bytes.Buffer
 	var err error
@@ -1057,6 +1095,33 @@ func checkFragment(e *env, fr fragResult, codec byte, scheme string, key, ivIn [
 		return
 	}
 	raw := buf.Bytes()
+	// the saio offset against the layout that was actually written (sizes are final after Encode)
+	{
+		off := uint64(8)
+		want := uint64(0)
+		for _, c := range fr.frag.Moof.Children {
+			if c.Type() != "traf" {
+				off += c.Size()
+				continue
+			}
+			off += 8
+			for _, tc := range c.(*mp4.TrafBox).Children {
+				if tc.Type() == "senc" {
+					want = off + 16
+				}
+				off += tc.Size()
+			}
+			break
+		}
+		if got := fr.frag.Moof.Traf.Saio.Offset[0]; uint64(got) != want {
+			cls := "saio-offset"
+			if fr.frag.EncOptimize&mp4.OptimizeTrun != 0 {
+				cls = "saio-offset-stale-after-optimize-trun"
+			}
+			fail("mp4.EncryptFragment", cls, wit, fmt.Sprintf("saio offset %d, the senc entries of the encoded moof start at %d", got, want))
+			return
+		}
+	}
 	dec, err := mp4.DecodeFile(bytes.NewReader(raw))
 	if err != nil || len(dec.Segments) != 1 || len(dec.Segments[0].Fragments) != 1 {
 		fail("mp4.DecodeFile", "decode-encrypted", wit, "encoded encrypted fragment does not decode")
